@@ -2,6 +2,8 @@
 import json, os, re
 from lib import vf, cbuild
 from gen import tdma_sched
+from props import c08_gsmtime_part as gsmtime      # part "gsmtime": layer1/sched_gsmtime.c on top of the TDMA scheduler
+GSMTIME_PART = True
 
 ID = "C08"
 LEVEL = "proof"
@@ -25,6 +27,13 @@ MANIFEST = {
     "design_ref": "DESIGN.md section 5 C08",
 }
 
+if GSMTIME_PART:
+    LEAN_MODULES += gsmtime.LEAN_MODULES
+    DRIVER_MODULES += gsmtime.DRIVER_MODULES
+    LEAN_MODEL_MODULES += gsmtime.LEAN_MODEL_MODULES
+    ASSUMPTIONS += gsmtime.ASSUMPTIONS
+    MANIFEST = dict(MANIFEST, text=MANIFEST["text"] + gsmtime.MANIFEST_TEXT, note=MANIFEST["note"] + gsmtime.MANIFEST_NOTE)
+
 NF = 25          # scheduler depth the property speaks about
 NCB = 8          # capacity of one frame
 FW_FLAGS = ["-Dputs=fw_puts", "-Dprintf=fw_printf", "-Dputchar=fw_putchar"]
@@ -39,6 +48,8 @@ MAX_SCRIPT_SET = 64
 
 def gen(run):
     run.consts = tdma_sched.generate(run)
+    if GSMTIME_PART:
+        gsmtime.gen(run)
 
 
 def build_harness(run, san=False):
@@ -156,6 +167,47 @@ def parse_line(line):
         else:
             ops.append((c[0],))
     return cur, ops
+
+
+def in_domain(line):
+    """inside the property's quantifier: callbacks that report success (none of the failing callbacks ERR_CBS, neither in
+    the history nor in a script), frame offsets 0..24, a current ring position below 25.  What the scheduler does when a callback fails (the
+    rc < 0 path) is modelled and compared, but the property does not speak about it: a difference there is listed in the
+    evidence and is not a broken tie."""
+    try:
+        cur, ops = parse_line(line)
+    except (ValueError, IndexError):
+        return False
+    if not 0 <= cur < NF:
+        return False
+
+    def cbs(op):
+        if op[0] == "sched":
+            yield op[2]
+        elif op[0] == "set":
+            for e in op[3]:
+                if isinstance(e, tuple):
+                    yield e[1]
+        elif op[0] == "def":
+            yield op[1]
+            for c in op[2]:
+                for x in cbs(c):
+                    yield x
+    def offs(op):
+        if op[0] in ("sched", "set"):
+            yield op[1]
+        elif op[0] == "def":
+            for c in op[2]:
+                for x in offs(c):
+                    yield x
+    for op in ops:
+        for c in cbs(op):
+            if c in ERR_CBS:
+                return False
+        for o in offs(op):
+            if not 0 <= o < NF:          # "all frame offsets 0..24": what an offset beyond the scheduler depth does is not the property's business
+                return False
+    return True
 
 
 def parse_answer(ans):
@@ -583,7 +635,7 @@ def correspond(run, corr):
     kinds += ["malformed"] * len(bad) + ["scripted"] * len(good)
     impl = run_hist(exe, lines)
     model = vf.run_driver(lines)
-    corr.compare(lines, impl, model)
+    corr.compare(lines, impl, model, in_domain=in_domain)
     if corr.disagreements:
         d = corr.disagreements[0]
         small = shrink_disagreement(exe, d["request"])
@@ -616,6 +668,8 @@ def correspond(run, corr):
                  "invocation (id, p1, p2, p3, rc) in order with the return value of every call it made from inside, flag_scan values, num_items "
                  "of all 25 buckets at the dump points")
     corr.samples = [{"request": r[:400], "impl": a[:400], "model": b[:400]} for r, a, b in list(zip(lines, impl, model))[:3]]
+    if GSMTIME_PART:
+        gsmtime.correspond(run, corr)
 
 
 # ------------------------------------------------------------------------------------------
@@ -1059,7 +1113,7 @@ def search(run, corr, deep):
     corr.distribution["oracle: histories with callbacks that schedule from inside"] = stats.get("scripted", 0)
     corr.distribution["oracle: calls from inside checked"] = stats.get("inside", 0)
     corr.distribution["oracle: histories with more than 256 advances"] = stats.get("long", 0)
-    return found
+    return found + (gsmtime.search(run, corr, deep) if GSMTIME_PART else 0)
 
 
 def replay(run, path):
@@ -1074,6 +1128,9 @@ def replay(run, path):
         w = v.get("witness")
         if not w:
             print("replay: no concrete input recorded (%s)" % json.dumps(v.get("broken"))[:400])
+            continue
+        if w.get("part") == "gsmtime":
+            bad += gsmtime.replay_witness(run, w)
             continue
         cur, ops = parse_line(w["history"])
         res, ans = check_history(exe, cur, ops)
